@@ -4,6 +4,7 @@ Lemmas about the directory-integrity model (`Atlas.Hash`).
 import Atlas.Hash
 
 namespace Atlas.Hash
+open Atlas
 
 /-- two distinct byte strings with the same hash. -/
 def Collision (H : Bytes → Bytes) : Prop := ∃ x y : Bytes, x ≠ y ∧ H x = H y
